@@ -319,6 +319,8 @@ def targeted(b, marks, rng):
 def _campaign(rng, tier, nspecs, nvals, opts, tag, with_clone, with_catalog=True):
     import specgen
     cases_spec = [] if not with_catalog else [{"text": specgen.render(items), "items": items, "meta": {"flags": [], "catalog": ctag}} for ctag, items in specgen.catalog()]
+    if with_catalog:
+        cases_spec += [{"text": specgen.render(items), "items": items, "meta": {"flags": [], "catalog": ctag}, "oos": True} for ctag, items in specgen.catalog_oos()]
     cases_spec += t3.corpus_supported(nspecs, rng, variants=1, opts=opts)
     texts = [c["text"] for c in cases_spec]
     batch = Batch(texts, with_clone=with_clone, tag=tag)
@@ -356,13 +358,13 @@ def _campaign(rng, tier, nspecs, nvals, opts, tag, with_clone, with_catalog=True
     oout = run_driver(spec_lines + oreqs)[len(spec_lines):]
     reqs, meta = [], []
 
-    def add(k, ty, lead, b, kind, base=None, expect=None, what=None, rl=None):
-        # rl = (count, byte): the input is `b` followed by `count` copies of `byte` (written `<hex>~<count>:<bb>` on the wire of the
-        # line protocol, expanded by the harness and by the model driver) — buffers far larger than the value
-        tok = (b.hex() if b else "-") + ("~%d:%02x" % rl if rl else "")
+    def add(k, ty, lead, b, kind, base=None, expect=None, what=None, rl=None, tail=b""):
+        # rl = (count, byte): the input is `b`, then `count` copies of `byte`, then `tail` (written `<hex>~<count>:<bb>~<hex>` on the wire
+        # of the line protocol, expanded by the harness and by the model driver) — buffers and payloads far larger than a hex string should carry
+        tok = (b.hex() if b else "-") + (("~%d:%02x" % rl) + ("~" + tail.hex() if tail else "") if rl else "")
         for fam in ("val", "ref"):
             reqs.append("dec %d %s %s %d %s" % (k, fam, ty, lead, tok))
-            meta.append({"k": k, "fam": fam, "ty": ty, "lead": lead, "hex": tok if rl else b.hex(), "n": len(b) + (rl[0] if rl else 0),
+            meta.append({"k": k, "fam": fam, "ty": ty, "lead": lead, "hex": tok if rl else b.hex(), "n": len(b) + (rl[0] if rl else 0) + len(tail),
                          "kind": kind, "base": base, "expect": expect, "what": what})
 
     nbase = 0
@@ -382,6 +384,20 @@ def _campaign(rng, tier, nspecs, nvals, opts, tag, with_clone, with_catalog=True
             # the same value at the head of a buffer far larger than itself (thresholds a programmer would pick: 4 KiB, 64 KiB, 1 MiB)
             big = rng.choice([4096 + 13, 65536 + 464, 65536 + 464, 65536 + 464, (1 << 20) + 5])
             add(k, ty, lead, b, "valid+suffix", nbase, expect, "big-suffix-%d" % big, rl=(big, rng.choice([0, 0x5a, 0xff])))
+        if j == 0:
+            # one opaque / string of the value made very large (payload sizes a programmer would special-case: 64 KiB, just above, 1 MiB):
+            # the first unbounded length position the reference marks gets a payload of N bytes of `a`, the rest of the value follows
+            for mk in marks:
+                kind_, _, rest_ = mk.partition("@")
+                f_ = rest_.split(":")
+                if kind_ == "len" and f_[1] == "-" and not any(x.startswith("str@%d:" % (int(f_[0]) + 4)) for x in marks):
+                    off = int(f_[0])      # an opaque (a string's content would be echoed in full by both sides)
+                    old = int.from_bytes(b[off:off + 4], "big")
+                    after = off + 4 + old + (-old) % 4
+                    big = rng.choice([65536, 65536, 70001, (1 << 20) + 2])
+                    add(k, ty, lead, b[:off] + big.to_bytes(4, "big"), "bigpayload", nbase, None, "payload-%d" % big, rl=(big, 0x61),
+                        tail=b"\x00" * ((-big) % 4) + b[after:])
+                    break
         if j == -1:
             continue        # the lead variant of the previous value: valid runs only
         if len(b) > 1200:
@@ -442,7 +458,7 @@ def _campaign(rng, tier, nspecs, nvals, opts, tag, with_clone, with_catalog=True
         m["impl"], m["model"] = i, mo
     return {"cases": meta, "skipped_heavy": skipped_heavy, "specs": [{"text": c["text"], "flags": c["meta"]["flags"], "status": batch.status.get(str(k), "?"),
                                       "compile_errors": batch.compile_errors.get(str(k)), "loaded": loaded[k], "sizes": sizes[k],
-                                      "arrrec": array_recursive(c.get("items") or []), "flags": flags[k]}
+                                      "arrrec": array_recursive(c.get("items") or []), "flags": flags[k], "oos": bool(c.get("oos"))}
                                      for k, c in enumerate(cases_spec)]}
 
 
